@@ -32,6 +32,8 @@ def substitute(cond, doc):
             return a.build().get_data(copy_value(doc), return_paths=False)
         if isinstance(a, list) and any(isinstance(x, PathT) for x in a):
             return [res(x) if isinstance(x, PathT) else x for x in a]
+        if isinstance(a, tuple) and any(isinstance(x, PathT) for x in a):
+            return tuple(res(x) if isinstance(x, PathT) else x for x in a)     # a tuple argument stays a tuple
         if isinstance(a, dict) and any(isinstance(x, PathT) for x in a.values()):
             return {k: (res(x) if isinstance(x, PathT) else x) for k, x in a.items()}
         return a
@@ -74,6 +76,33 @@ def nested_case(rt, doc):
                 model, None, impl, outcome, nontrivial, key=(rt.descr(), repr(doc)[:60]))
 
 
+def container_arg_rule(g, rg, doc):
+    """A rule comparing a list node of the document with an argument that holds the same items, one of them given as a data path to
+    that very item: as a LIST the resolved argument equals the node, as a TUPLE it never does (the container kind of an argument is
+    kept when its path items are resolved)."""
+    lists = []
+
+    def walk(v, path):
+        if isinstance(v, list) and v and all(isinstance(x, (bool, int, float, str)) or x is None for x in v) and path:
+            lists.append((path, v))
+        if isinstance(v, (list, dict)) and len(path) < 3:
+            for k, x in (enumerate(v) if isinstance(v, list) else v.items()):
+                if isinstance(k, (str, int)) and not isinstance(k, bool):
+                    walk(x, path + (k,))
+    walk(doc, ())
+    if not lists:
+        return None
+    path, node = g.r.choice(lists)
+    i = g.r.randrange(len(node))
+    items = [copy_value(x) for x in node]
+    items[i] = PathT([Prim(k) for k in path] + [Prim(i)])
+    arg = tuple(items) if g.r.random() < 0.6 else items
+    cond = Leaf("Value", g.r.choice(["equal_to", "not_equal_to"]), [arg])
+    if g.r.random() < 0.3:
+        cond = Bin(g.r.choice(["and", "or"]), rg.rule(doc).cond, cond)
+    return RuleT(PathT([Prim(k) for k in path]), cond, [])
+
+
 def type_sensitive_rule(g, rg, doc):
     """A rule whose verdict depends on the TYPE of what its path argument selects (the data type of a number, a range bound):
     a number in the document is referred to by a concrete path."""
@@ -113,6 +142,8 @@ def run(tier, seed, model_ok, spec_ok, replay=None):
         rt = rg.rule(doc, cast_p=0.0, path_args_p=1.0)
         if g.r.random() < 0.15:
             rt = type_sensitive_rule(g, rg, doc) or rt
+        elif g.r.random() < 0.08:
+            rt = container_arg_rule(g, rg, doc) or rt
         try:
             c = c05.make_case(rt, doc)
         except E.Unencodable:
